@@ -104,6 +104,11 @@ fn one(ctx: &mut Ctx, case: u64, rng: &mut Rng, scratch: &Scratch) {
             if rng.chance(1, 2) {
                 store.register_useful_peer(u.ns.id(), rng.fill32()).unwrap();
             }
+            if rng.chance(1, 2) {
+                // a policy other than the default, so that "no observable content changes" has something to lose
+                let f = iroh_docs::store::FilterKind::Prefix(vec![b'a' + rng.below(2) as u8].into());
+                store.set_download_policy(&u.ns.id(), iroh_docs::store::DownloadPolicy::NothingExcept(vec![f])).unwrap();
+            }
         }
         store.flush().unwrap();
         LIVE_HEADS.with(|h| {
